@@ -61,6 +61,17 @@ Example set_inits_example :
   set_inits [mkparam 1%positive (XFin 1) (XFin 0) (XFin 2) false] [(1%positive, XFin 3)] = None.
 Proof. split; vm_compute; reflexivity. Qed.
 
+(* set_fix: flags change, nothing else; an unchecked parameter (init 5 outside [0, 2]) makes it raise *)
+Example set_fix_example :
+  set_fix [mkparam 1%positive (XFin 1) (XFin 0) (XFin 2) false; mkparam 2%positive (XFin 1) XNegInf XPosInf true]
+          [(2%positive, false); (1%positive, true)]
+  = Some [mkparam 1%positive (XFin 1) (XFin 0) (XFin 2) true; mkparam 2%positive (XFin 1) XNegInf XPosInf false] /\
+  forallb param_wf [mkparam 1%positive (XFin 1) (XFin 0) (XFin 2) false; mkparam 2%positive (XFin 1) XNegInf XPosInf true] = true /\
+  set_fix [mkparam 1%positive (XFin 5) (XFin 0) (XFin 2) false] [(1%positive, true)] = None /\
+  set_fix [mkparam 1%positive (XFin 5) (XFin 0) (XFin 2) false] [(3%positive, true)]
+  = Some [mkparam 1%positive (XFin 5) (XFin 0) (XFin 2) false].
+Proof. repeat split; vm_compute; reflexivity. Qed.
+
 Example names_examples :
   params_create [mkparam 1%positive (XFin 1) XNegInf XPosInf false; mkparam 2%positive (XFin 1) XNegInf XPosInf false] <> None /\
   params_create [mkparam 1%positive (XFin 1) XNegInf XPosInf false; mkparam 1%positive (XFin 2) XNegInf XPosInf false] = None /\
